@@ -17,7 +17,7 @@ PROP = {'lean_props': ['Comrak.Props.C14'],
                        'unfiltered_verbatim'],
  'strength': 'full: tagfilter l = disallowedAt l (the GFM rule with the HTML tokenizer\'s white space) for every literal, tagfilter_block = rewriteSpec '
              'for every literal, and "no such tag survives in an HTML block" as a theorem about the output itself (survivorsH (tagfilterBlock l) = 0 for '
-             'every literal; the driver\'s survivors counter is proved equal to survivorsH); locality: the filter carries no state across a '<' "
+             'every literal; the driver\'s survivors counter is proved equal to survivorsH); locality: the filter carries no state across a less-than sign '
              '(tagfilterBlock (p ++ < t) = tagfilterBlock p ++ tagfilterBlock (< t)), so no quote, comment or open-tag context switches it off. The form-feed gap of the pinned tree was repaired in /repo.',
  'trusted_base': ["recursive renderT/renderF stand for comrak's explicit work-stack traversal (exercised by the correspondence on deep and wide "
                   'trees, not proved)',
